@@ -992,6 +992,80 @@ def hullmulti_unit():
                 ctx_params=[('cen', 'μ → GV.Pt'), ('verts', 'μ → List GV.Pt'), ('bc', 'μ → List GV.Pt')])
 
 
+# ----------------------------------------------------------------------------------------------------------
+# geostructures/structures.py, _base.py, collections.py :: `bounds` and `circumscribing_rectangle`   (C09)
+#
+# the receiver is its defining data: a box its two corners, a polygon / linestring its vertex list, a point its
+# coordinate (`GV.Pt = Rat × Rat`, floats as exact rationals); a member of a multi-shape / collection, and the receiver of
+# the mixins' `circumscribing_rectangle`, is given by its `bounds`.  `y.to_float()` is a tuple that starts with
+# (longitude, latitude) (pinned) of which only `[:2]`, `[0]`, `[1]` may be read; `Coordinate(lon, lat)` is the model's
+# normalising constructor (C08's subject, tied to the source by SrcCoord); `GeoBox(a, b, dt=self.dt)` is its two corners.
+
+PINS['coordinates.py::Coordinate.to_float'] = 'b613877e945e9836'       # SrcBounds: a tuple that starts with (longitude, latitude)
+
+
+def bounds_unit():
+    src = py2lean.Sources([_repo('structures.py'), _repo('_base.py'), _repo('collections.py')])
+    insts = [
+        Inst('GeoBox.bounds', 'boxBounds', [('self', 'BdBox')], 'Tuple4 R'),
+        Inst('GeoPoint.bounds', 'pointBounds', [('self', 'BdPoint')], 'Tuple4 R'),
+        Inst('GeoPolygon.bounds', 'polygonBounds', [('self', 'BdPoly')], 'Except Tuple4 R'),
+        Inst('GeoLineString.bounds', 'lineBounds', [('self', 'BdLine')], 'Except Tuple4 R'),
+        Inst('MultiShapeBase.bounds', 'multiBounds', [('self', 'BdMulti')], 'Except Tuple4 R'),
+        Inst('CollectionBase.bounds', 'collBounds', [('self', 'BdColl')], 'Except Tuple4 R'),
+        Inst('PolygonLikeMixin.circumscribing_rectangle', 'polyLikeRect', [('self', 'BdShape')], 'BdBox'),
+        Inst('LineLikeMixin.circumscribing_rectangle', 'lineLikeRect', [('self', 'BdShape')], 'BdBox'),
+        Inst('GeoLineString.circumscribing_rectangle', 'lineRect', [('self', 'BdLine')], 'Except BdBox'),
+        Inst('GeoBox.circumscribing_rectangle', 'boxRect', [('self', 'BdBox')], 'BdBox'),
+    ]
+    for tag, lean in (('BdBox', 'GV.Pt × GV.Pt'), ('BdPoint', 'GV.Pt'), ('BdPoly', 'List GV.Pt'), ('BdLine', 'List GV.Pt'),
+                      ('BdShape', 'GV.Bounds.BBox'), ('BdMulti', 'List GV.Bounds.BBox'), ('BdColl', 'List GV.Bounds.BBox'),
+                      ('CoordTuple', 'GV.Pt')):
+        py2lean.LEAN_TYPE.setdefault(tag, lean)
+    attr = {('Pt', 'longitude'): ('{}.1', 'R'), ('Pt', 'latitude'): ('{}.2', 'R'),
+            ('BdBox', 'nw_bound'): ('{}.1', 'Pt'), ('BdBox', 'se_bound'): ('{}.2', 'Pt'),
+            ('BdPoint', 'coordinate'): ('{}', 'Pt'), ('BdPoly', 'outline'): ('{}', 'List Pt'),
+            ('BdLine', 'vertices'): ('{}', 'List Pt'), ('BdShape', 'bounds'): ('{}', 'Tuple4 R'),
+            ('BdMulti', 'geoshapes'): ('{}', 'List BdShape'), ('BdColl', 'geoshapes'): ('{}', 'List BdShape')}
+
+    def method(tr, recv, attr_name, args):
+        if recv.typ == 'Pt' and attr_name == 'to_float' and not args:
+            return Val(recv.text, 'CoordTuple')
+        return None
+
+    def subscript(tr, v, sl):
+        A = py2lean.ast
+        if v.typ != 'CoordTuple':
+            return None
+        if isinstance(sl, A.Slice) and sl.lower is None and sl.step is None and isinstance(sl.upper, A.Constant) and sl.upper.value == 2 \
+                and not isinstance(sl.upper.value, bool):
+            return Val(v.text, 'Pair R')
+        if isinstance(sl, A.Constant) and sl.value in (0, 1) and not isinstance(sl.value, bool):
+            return Val(f'{v.text}.{sl.value + 1}', 'R')
+        raise Unsupported(f'subscript `[{A.unparse(sl)}]` of `to_float()`')
+
+    def coordinate(tr, args):
+        if [a.typ for a in args] != ['R', 'R']:
+            raise Unsupported('Coordinate(' + ', '.join(a.typ for a in args) + ')')
+        return Val(f'(GV.normalize true {args[0].text} {args[1].text})', 'Pt')
+
+    def geobox(tr, args):
+        if [a.typ for a in args] != ['Pt', 'Pt']:
+            raise Unsupported('GeoBox(' + ', '.join(a.typ for a in args) + ')')
+        return Val(f'({args[0].text}, {args[1].text})', 'BdBox')
+
+    def kw(tr, e):
+        f = e.func
+        name = f.id if isinstance(f, py2lean.ast.Name) else None
+        return name == 'GeoBox' and [k.arg for k in e.keywords] == ['dt'] and py2lean.ast.unparse(e.keywords[0].value) == 'self.dt'
+
+    return Unit('SrcBounds', src, 'GV.Src.Bounds', ['GeoVerif.Model.Bounds', 'GeoVerif.Model.PyBounds'], insts,
+                {'BdBox': 'GeoBox', 'BdPoint': 'GeoPoint', 'BdPoly': 'GeoPolygon', 'BdLine': 'GeoLineString'},
+                attr_types=attr, intrinsics={'Coordinate': coordinate, 'GeoBox': geobox},
+                pins={'coordinates.py::Coordinate.to_float': PINS['coordinates.py::Coordinate.to_float']},
+                hooks={'isinstance': lambda typ: None, 'method': method, 'subscript': subscript, 'keywords': kw})
+
+
 UNITS = {'SrcTime': time_unit, 'SrcBase': base_unit, 'SrcMulti': multi_unit, 'SrcColl': coll_unit, 'SrcPip': pip_unit,
          'SrcMember': member_unit, 'SrcTrack': track_unit, 'SrcRelate': relate_unit, 'SrcCoord': coord_unit,
          'SrcCurved': curved_unit, 'SrcCalc': calc_unit}
@@ -999,6 +1073,7 @@ UNITS['SrcFlood'] = flood_unit
 UNITS['SrcHull'] = hull_unit
 UNITS['SrcHullPoly'] = hullpoly_unit
 UNITS['SrcHullMulti'] = hullmulti_unit
+UNITS['SrcBounds'] = bounds_unit
 
 
 def render(name):
